@@ -107,11 +107,16 @@ def parse_hexlist(s):
 
 
 def parse_passes(s):
+    """pass := idxs ":" valid [":" hash_type]   (a per-pass hash type overrides the op's)"""
     res = []
     for p in s.split("|"):
-        idxs, valid = p.split(":")
+        idxs, valid = p.split(":")[:2]
         res.append(([] if idxs == "~" else [int(x) for x in idxs.split(",")], valid))
     return res
+
+
+def parse_pass_hts(s):
+    return [(int(p.split(":")[2]) if p.count(":") >= 2 else None) for p in s.split("|")]
 
 
 def parse_subset(s):
@@ -267,6 +272,7 @@ class SignOp:
         self.subset = parse_subset(subset)
         self.entries = parse_entries(self.keys_s)
         self.passes = parse_passes(self.passes_s)
+        self.pass_ht = parse_pass_hts(self.passes_s)
         self.scripts = parse_hexlist(self.p2sh_s)
         self.net = NET(self.coin)
 
@@ -296,6 +302,12 @@ def run_passes(o: SignOp, observe=None):
         keychain.add_p2s_scripts(o.scripts)
     for k, (idxs, _valid) in enumerate(o.passes):
         before = fields_of(tx)
+        if o.pass_ht[k] is not None:
+            kw["hash_type"] = o.pass_ht[k]
+        elif o.ht is not None:
+            kw["hash_type"] = o.ht
+        else:
+            kw.pop("hash_type", None)
         if o.mech == "dict":
             lookup = lookup_of([o.entries[i] for i in idxs])
             tx.sign(lookup, p2sh_lookup=build_p2sh_lookup(o.scripts), **kw)
@@ -483,8 +495,8 @@ def listed_keys(info):
 def oracle_sign_tx(op):
     o = SignOp(op)
     fork = is_fork(o.coin)
-    want_ht = eff_ht(o.coin, o.ht)
-    if want_ht > 255:
+    want_hts = [eff_ht(o.coin, h if h is not None else o.ht) for h in o.pass_ht]
+    if any(w > 255 for w in want_hts):
         return None
     good = [entry_good(e) for e in o.entries]
     tx0 = build(o.coin, o.tx_s, o.us_s)
@@ -560,9 +572,19 @@ def oracle_sign_tx(op):
                     why = strict_der_problem(s[:-1] + b"\x01") if s else "empty"
                     if why:
                         problems.append("pass %d: input %d carries a signature that is not strict DER / low S (%s)" % (k, i, why))
-                    if s[-1] != want_ht:
+                    # the signature commits to the digest a FRESH checker computes for its hash type (a checker that keeps state
+                    # between digests signs, and later validates, something else: validation alone cannot see it)
+                    try:
+                        z_fresh = digest_for(tx, i, s[-1], info)
+                        rs = der.sigdecode_der(s[:-1])
+                        if z_fresh is not None and not any(G.verify(pp, z_fresh, rs) for pp in {(e[2], e[3]) for e in o.entries}):
+                            problems.append("pass %d: the new signature of input %d (hash type 0x%02x) verifies for none of the supplied keys "
+                                            "under the signature hash a fresh checker computes" % (k, i, s[-1]))
+                    except Exception:  # noqa: BLE001  (not DER: reported above)
+                        pass
+                    if s[-1] != want_hts[k]:
                         problems.append("pass %d: input %d signed with hash type 0x%02x, 0x%02x requested%s"
-                                        % (k, i, s[-1], want_ht, " (fork-id coin)" if fork else ""))
+                                        % (k, i, s[-1], want_hts[k], " (fork-id coin)" if fork else ""))
             prev_valid[i] = ok_default
     try:
         run_passes(o, observe)
@@ -772,7 +794,11 @@ class Scenario:
         return "|".join("%d:%s" % (v, hx(p)) for p, v, *_ in self.ins)
 
 
-def op_sign_tx(coin, mech, fields, us_text, scripts, ht, subset, entries, pass_idxs):
+def _pht(pass_hts, j):
+    return ":%d" % pass_hts[j] if pass_hts and pass_hts[j] is not None else ""
+
+
+def op_sign_tx(coin, mech, fields, us_text, scripts, ht, subset, entries, pass_idxs, pass_hts=None):
     """assemble the op line: runs the passes on the implementation to learn the parameters of the model
     (validity before each pass, digests)"""
     tx_s = show_fields(fields, compact=False)
@@ -782,7 +808,7 @@ def op_sign_tx(coin, mech, fields, us_text, scripts, ht, subset, entries, pass_i
     sub_s = "all" if subset is None else show_list(subset)
     # first run with dummy validity to observe validity before each pass
     proto = " ".join(["c05_sign_tx", coin, mech, tx_s, us_text, p2sh_s, ht_s, sub_s, keys_s,
-                      "|".join("%s:-" % show_list(p) for p in pass_idxs), "~"])
+                      "|".join("%s:-%s" % (show_list(p), _pht(pass_hts, j)) for j, p in enumerate(pass_idxs)), "~"])
     o = SignOp(proto)
     valids = []
     tx0 = build(coin, tx_s, us_text)
@@ -803,12 +829,14 @@ def op_sign_tx(coin, mech, fields, us_text, scripts, ht, subset, entries, pass_i
     while len(valids) < len(pass_idxs):
         valids.append(valids[-1])
     e_ht = eff_ht(coin, ht)
-    dig = "~" if tx0.missing_unspents() else digests_text(tx0, scripts, [e_ht, 1] if e_ht <= 0xffffffff else [1])
-    passes_s = "|".join("%s:%s" % (show_list(p), v) for p, v in zip(pass_idxs, valids))
+    hts = [e_ht, 1] if e_ht <= 0xffffffff else [1]
+    hts += [eff_ht(coin, h) for h in (pass_hts or []) if h is not None and eff_ht(coin, h) <= 0xffffffff]
+    dig = "~" if tx0.missing_unspents() else digests_text(tx0, scripts, hts)
+    passes_s = "|".join("%s:%s%s" % (show_list(p), v, _pht(pass_hts, j)) for j, (p, v) in enumerate(zip(pass_idxs, valids)))
     return " ".join(["c05_sign_tx", coin, mech, tx_s, us_text, p2sh_s, ht_s, sub_s, keys_s, passes_s, dig])
 
 
-def scenario_op(ctx, sc: Scenario, mech="dict", ht=None, subset=None, passes=None, wrong=None, fields=None):
+def scenario_op(ctx, sc: Scenario, mech="dict", ht=None, subset=None, passes=None, wrong=None, fields=None, pass_hts=None):
     """entries = both forms of every secret of the scenario; passes = list of lists of secrets (None = one pass with all)"""
     secrets = []
     for _p, _v, ds, _m, _k, _c in sc.ins:
@@ -840,7 +868,7 @@ def scenario_op(ctx, sc: Scenario, mech="dict", ht=None, subset=None, passes=Non
             cum = sorted(set(cum) | set(idxs))
             idxs = list(cum)
         pass_idxs.append(idxs)
-    return op_sign_tx(sc.coin, mech, fields or sc.fields(), sc.unspents_text(), sc.scripts, ht, subset, entries, pass_idxs)
+    return op_sign_tx(sc.coin, mech, fields or sc.fields(), sc.unspents_text(), sc.scripts, ht, subset, entries, pass_idxs, pass_hts)
 
 
 def kc_scenario_op(ctx, coin, kinds, ht=None, n_passes=None):
@@ -1099,6 +1127,31 @@ def gen(ctx, emit):
                 ds = fresh(n)
                 sc.add(kind, ds, m, compressed=(kind not in ("ms", "p2sh-ms")) or rng.random() < 0.6)
                 emit(scenario_op(ctx, sc, rng.choice(["dict", "wif"]), ht=rng.choice([None] + HASH_TYPES), passes=[[ds[j]] for j in perm]))
+    # --- cosigners using DIFFERENT hash types on a transaction with several inputs: in its pass the second cosigner's checker
+    # first verifies the existing NONE/SINGLE signature and then makes an ALL one (whatever a digest computation leaves behind
+    # in the checker must not leak into the next digest), while other inputs carry non-zero sequences
+    for _ in range(ctx.n(12, 200)):
+        kind = rng.choice(["ms", "p2sh-ms", "ms", "p2wsh-ms", "p2sh-p2wsh-ms"])
+        n = rng.choice([2, 2, 3])
+        m = rng.randint(2, n)
+        sc = Scenario(ctx, rng.choice(COINS_MAIN), pool)
+        ds = fresh(n)
+        other = fresh(2)
+        adds = [lambda: sc.add(kind, ds, m, compressed=True), lambda: sc.add(rng.choice(["p2pkh", "p2pk", "p2wpkh"]), [other[0]])]
+        if rng.random() < 0.5:
+            adds.append(lambda: sc.add("p2pkh", [other[1]]))
+        else:
+            other = other[:1]
+        rng.shuffle(adds)
+        for f in adds:
+            f()
+        order = ds[:]
+        rng.shuffle(order)
+        passes = [[d] for d in order[:m]]
+        passes[-1] = passes[-1] + other
+        hts = [rng.choice([2, 3, 0x82, 0x83, 0x81]) for _ in passes]
+        hts[-1] = rng.choice([1, 1, 0x81])
+        emit(scenario_op(ctx, sc, "dict", passes=passes, pass_hts=hts))
     for _ in range(ctx.n(2, 60)):
         n = rng.randint(5, 12)
         m = rng.randint(2, n)
